@@ -75,6 +75,14 @@ class C11(Prop):
                                          "route": route, "clauses": cl}, **f))
         if tier != "thorough":
             out = [c for k, c in enumerate(out) if k % 2 == 0 or c["src"] == "ref"]
+        # content of total length 0 (empty piece string / no roots): still v1 and / or v2 content
+        for v in (1, 2, 3):
+            reqs = [0] + ([1, 2, 3] if v == 3 else [])
+            for tree in (mk_tree("S1", (0,), name="empty.bin"), mk_tree("D2", (0, 0), name="empties")):
+                for req in reqs:
+                    for src in ("own", "ref"):
+                        out.append({"src": src, "version": v, "P": B, "tree": tree, "request": req, "route": "lib",
+                                    "opts": {"announce": [URLS[0]]}, "extra_top": {"announce": URLS[0]}, "clauses": cl})
         return out
 
     def nontrivial(self, case):
